@@ -182,6 +182,9 @@ fn oracle(log: &[Obs], stream_dropped_at: Option<usize>) -> V {
                     );
                 }
             }
+            // the caller gave up before the reply arrived: nothing to check for this request
+            // (the machine may or may not have taken it)
+            "Abandoned" => {}
             "Gone" => match stream_dropped_at {
                 Some(_) => {}
                 None => return bad("reply Gone although the state machine still exists", ""),
@@ -383,6 +386,10 @@ fn run(ctx: &RunCtx, tier: Tier, n_total: usize) -> RunOut {
 }
 
 fn run_script(ctx: &RunCtx, tier: Tier, n_total: usize, backoff_script: bool) -> RunOut {
+    run_script2(ctx, tier, n_total, backoff_script, false)
+}
+
+fn run_script2(ctx: &RunCtx, tier: Tier, n_total: usize, backoff_script: bool, abandoning: bool) -> RunOut {
     let drop_mode = DropMode::None;
     let n_clients = if n_total > 1 { 1 + choose("clients", n_total) } else { 1 };
     let mut s = Setup::new(Mode::Start);
@@ -395,13 +402,19 @@ fn run_script(ctx: &RunCtx, tier: Tier, n_total: usize, backoff_script: bool) ->
         backoff_script,
     };
     let mut e = Exec::new(s, Box::new(d), Store::default());
-    for c in 0..n_clients {
+    if abandoning {
+        // one client: its first request may be abandoned (a second gate), two more follow on the same handle
+        let o = |_: usize| [Src::Scheduled, Src::OnDemand][choose("options", 2)];
+        let first = o(0);
+        e.add_client_abandoning(first, vec![o(1)]);
+    }
+    for c in 0..(if abandoning { 0 } else { n_clients }) {
         // requests dealt round-robin to the clients: 2 -> [2] | [1,1]; 3 -> [3] | [2,1] | [1,1,1]
         let n_req = (0..n_total).filter(|i| i % n_clients == c).count();
         let reqs = (0..n_req).map(|_| [Src::Scheduled, Src::OnDemand][choose("options", 2)]).collect();
         e.add_client(reqs);
     }
-    let horizon = tier.pick(40usize, 50usize);
+    let horizon = if abandoning { tier.pick(24usize, 32usize) } else { tier.pick(40usize, 50usize) };
     let opts = SchedOpts {
         por: true,
         spurious: false,
@@ -417,7 +430,12 @@ fn run_script(ctx: &RunCtx, tier: Tier, n_total: usize, backoff_script: bool) ->
                 return Some(i);
             }
         }
-        let non_gate: Vec<usize> = en.iter().enumerate().filter(|(_, a)| !matches!(a, Action::Complete(_, OpKind::Gate))).map(|(i, _)| i).collect();
+        let mut non_gate: Vec<usize> = en.iter().enumerate().filter(|(_, a)| !matches!(a, Action::Complete(_, OpKind::Gate))).map(|(i, _)| i).collect();
+        if abandoning {
+            // clients first: by default a caller acts on an opened gate before the machine runs again
+            // (the other parts default to the machine first)
+            non_gate.sort_by_key(|i| if matches!(en[*i], Action::RunClient(_)) { 0 } else { 1 });
+        }
         if non_gate.is_empty() {
             // only gates left: inject now
             return Some(0);
@@ -658,6 +676,13 @@ fn parts(tier: Tier) -> Vec<PartDef> {
         json!({"machine_script": "the first update-check attempt of every check fails in transit; the back-off timer is a blocking point; the retry is answered (no update)", "requests": "2 (one or two clients), options exhaustive, injected at every step",
                "deviation_bound_on_the_rest": tier.pick(0, 1)}),
         move |ctx| run_script(ctx, tier, 2, true),
+    ));
+    v.push(PartDef::new(
+        "abandoned-request",
+        Cfg::new("C11/abandoned-request").dev(tier.pick(0, 1)).free(&["options", "inject"]),
+        json!({"client": "one handle: the first call may be abandoned (its future dropped) at any later step before the reply arrives, then another request on the same handle", "injection": "every step up to 24/32 (send, give up, send)",
+               "oracle": "every request that is not abandoned gets exactly one truthful reply (in particular not the gone error while the machine exists)", "deviation_bound_on_the_rest": tier.pick(0, 1)}),
+        move |ctx| run_script2(ctx, tier, 1, false, true),
     ));
     v.push(PartDef::new(
         "wake-without-timer",
